@@ -67,6 +67,12 @@ class PackedHist : public Engine {
         if (cap > 96) cap = 96;
         static const char *modes[] = {"cells", "sorted", "positional", "sorted", "cells"};
         std::string mode = r.pick(modes);
+        if (r.chance(1, 40)) { // long arrays: offsets beyond 255 / 65535, many slot periods
+            static const size_t big[] = {300, 1000, 3700, 66000, 70000};
+            cap = r.pick(big);
+            if (c.max_elements && cap > (size_t)c.max_elements) cap = (size_t)c.max_elements;
+            if (mode != "cells" && cap > 1000) mode = "cells";
+        }
         p.set_knob("cfg", std::to_string(cfg));
         p.set_knob("cfgname", c.name);
         p.set_knob("cap", std::to_string(cap));
@@ -83,10 +89,32 @@ class PackedHist : public Engine {
         };
         size_t nops = r.range(3, tier == Tier::Thorough ? 80 : 40);
         size_t len = mode == "cells" ? cap : 0;
+        if (c.max_elements && r.chance(2, 3)) {
+            // narrow length type: the interesting arrays are longer than half of its range
+            cap = c.max_elements == 250 ? (size_t)r.range(130, 250) : (r.chance(1, 2) ? (size_t)r.range(33000, 40000) : (size_t)r.range(100, 400));
+            if (c.max_elements == 3700) cap = (size_t)r.range(100, 3700);
+            p.set_knob("cap", std::to_string(cap));
+            if (mode == "cells") len = cap;
+        }
+        if (mode != "cells" && r.chance(1, 2)) {
+            Op pf;
+            pf.kind = "prefill"; // start from a sorted array of n elements
+            size_t n = r.chance(1, 2) ? cap - 1 - r.below(std::min<size_t>(cap - 1, 4)) : r.below(cap);
+            pf.set("n", n);
+            pf.set("seed", r.next() & 0xffffff);
+            pf.set("dups", r.below(3));
+            p.ops.push_back(pf);
+            len = n;
+        }
         for (size_t i = 0; i < nops; i++) {
             Op op;
             if (mode == "cells") {
                 size_t idx = r.chance(1, 4) ? (r.chance(1, 2) ? 0 : cap - 1) : r.below(cap);
+                if (cap > 256 && r.chance(1, 3)) { // around the powers of two of the offset
+                    static const size_t edges[] = {255, 256, 257, 65535, 65536, 65537};
+                    size_t e = r.pick(edges);
+                    if (e < cap) idx = e;
+                }
                 switch (r.below(8)) {
                 case 0:
                 case 1:
@@ -120,7 +148,10 @@ class PackedHist : public Engine {
                     op.kind = "delete_member";
                     op.set("v", r.chance(1, 2) ? r.below(std::min<uint64_t>(maxv, 7) + 1) : val());
                     break;
-                case 6: op.kind = "member"; op.set("v", r.chance(1, 2) ? r.below(std::min<uint64_t>(maxv, 7) + 1) : val()); break;
+                case 6:
+                    op.kind = "member";
+                    op.set("v", r.chance(1, 2) ? r.below(std::min<uint64_t>(maxv, 7) + 1) : val());
+                    break;
                 case 7: op.kind = "lower_bound"; op.set("v", val()); break;
                 case 8: op.kind = "delete"; op.set("pos", r.below(cap)); break;
                 default: op.kind = "get"; op.set("i", r.below(cap)); break;
@@ -139,9 +170,18 @@ class PackedHist : public Engine {
                 default: op.kind = "get"; op.set("i", r.below(cap)); break;
                 }
             }
+            if (mode == "sorted" && r.chance(1, 4)) op.set("bytes", 1); // the *Bytes form of the call, where it is defined
             p.ops.push_back(op);
         }
         return p;
+    }
+
+    // storage size whose derived element count (bytes*8/bits) equals len, or 0 if none exists
+    static size_t bytes_for_len(size_t len, int bits) {
+        size_t b = (len * (size_t)bits + 7) / 8;
+        for (size_t t = b; t <= b + 8; t++)
+            if ((t * 8) / (size_t)bits == len) return t;
+        return 0;
     }
 
     Outcome execute(const Plan &plan) override {
@@ -151,7 +191,7 @@ class PackedHist : public Engine {
         int B = c.bits;
         size_t S = (size_t)c.slot_bytes;
         uint64_t maxv = B >= 64 ? ~0ULL : ((1ULL << B) - 1);
-        size_t cap = std::max<size_t>(2, std::min<uint64_t>(plan.knob_u("cap", 8), 4096));
+        size_t cap = std::max<size_t>(2, std::min<uint64_t>(plan.knob_u("cap", 8), 80000));
         std::string mode = plan.knob("mode", "cells");
         // exact number of slots for cap elements
         size_t nslots = (cap * (size_t)B + S * 8 - 1) / (S * 8);
@@ -168,6 +208,7 @@ class PackedHist : public Engine {
         bool spanning = false;
         out.cases = 1;
         g_log.str(c.name);
+        fiber::alone_budget(400000000ULL); // a search or shift loop that never ends is a violation, not a stuck worker
         for (size_t oi = 0; oi < plan.ops.size(); oi++) {
             const Op &op = plan.ops[oi];
             const std::string &k = op.kind;
@@ -184,7 +225,22 @@ class PackedHist : public Engine {
             size_t fi = 0; // element whose footprint is checked
             size_t vac_from = 1, vac_to = 0; // elements whose final value is unconstrained
             g_log.str(k.c_str());
-            if (k == "set" || k == "get" || k == "incr" || k == "half") {
+            if (k == "prefill") {
+                if (mode == "cells" || len != 0) continue;
+                size_t n = std::min<size_t>(op.u("n"), cap - 1);
+                Rng pr(op.u("seed") + 1);
+                std::vector<uint64_t> vals(n);
+                uint64_t spread = op.u("dups") == 0 ? maxv : (op.u("dups") == 1 ? std::min<uint64_t>(maxv, 15) : std::min<uint64_t>(maxv, n ? n : 1));
+                for (auto &x : vals) x = spread == ~0ULL ? pr.next() : pr.next() % (spread + 1);
+                std::sort(vals.begin(), vals.end());
+                for (size_t j = 0; j < n; j++) {
+                    c.set(st.base(), (uint32_t)j, vals[j]);
+                    ref_set(img, j, B, vals[j]);
+                }
+                model = vals;
+                len = n;
+                spanning = true;
+            } else if (k == "set" || k == "get" || k == "incr" || k == "half") {
                 size_t i = (size_t)(op.u("i") % cap);
                 fi = i;
                 footprint = true;
@@ -243,7 +299,12 @@ class PackedHist : public Engine {
                 if (k == "insert_sorted") {
                     if (mode != "sorted") continue;
                     pos = (size_t)(std::lower_bound(model.begin(), model.end(), v) - model.begin());
-                    c.insert_sorted(st.base(), (uint32_t)len, v);
+                    size_t nb = op.u("bytes") ? bytes_for_len(len, B) : 0;
+                    if (nb) {
+                        stat("op.bytes_form");
+                        c.insert_sorted_bytes(st.base(), nb, v);
+                    } else
+                        c.insert_sorted(st.base(), (uint32_t)len, v);
                 } else {
                     pos = (size_t)(op.u("pos") % (len + 1));
                     c.insert(st.base(), (uint32_t)len, (uint32_t)pos, v);
@@ -266,7 +327,9 @@ class PackedHist : public Engine {
                 uint64_t v = op.u("v") & maxv;
                 auto it = std::lower_bound(model.begin(), model.end(), v);
                 bool present = it != model.end() && *it == v;
-                int ret = c.del_member(st.base(), (uint32_t)len, v);
+                size_t nb = op.u("bytes") ? bytes_for_len(len, B) : 0;
+                if (nb) stat("op.bytes_form");
+                int ret = nb ? c.del_member_bytes(st.base(), nb, v) : c.del_member(st.base(), (uint32_t)len, v);
                 g_log.u64((uint64_t)ret);
                 if ((ret != 0) != present) {
                     fail("return-value", std::string("DeleteMember returned ") + (ret ? "true" : "false") +
@@ -286,7 +349,9 @@ class PackedHist : public Engine {
                 auto it = std::lower_bound(model.begin(), model.end(), v);
                 if (k == "member") {
                     int64_t want = (it != model.end() && *it == v) ? (int64_t)(it - model.begin()) : -1;
-                    int64_t got = c.member(st.base(), (uint32_t)len, v);
+                    size_t nb = op.u("bytes") ? bytes_for_len(len, B) : 0;
+                    if (nb) stat("op.bytes_form");
+                    int64_t got = nb ? c.member_bytes(st.base(), nb, v) : c.member(st.base(), (uint32_t)len, v);
                     g_log.u64((uint64_t)got);
                     if (got != want) {
                         fail("return-value", "Member returned " + std::to_string(got) + ", the first equal element is at " +
@@ -332,6 +397,7 @@ class PackedHist : public Engine {
                 break;
             }
         }
+        fiber::alone_budget(0);
         if (spanning) out.nontrivial.push_back(plan.digest());
         stat(std::string("cfg.") + c.name);
         stat("mode." + mode);
